@@ -21,7 +21,7 @@
 (* and the chain ends in                                                    *)
 (*   "trap"   the last link awaits a generator-based coroutine that yields  *)
 (*   "iter"   the last link awaits an object whose __await__ returns a plain *)
-(*            iterator (the leaf)                                           *)
+(*            iterator: cr_await is that iterator, the leaf                 *)
 (*   "own"    a one-link chain whose (async generator) root is suspended at *)
 (*            its own yield                                                 *)
 (*                                                                         *)
@@ -70,8 +70,8 @@ Spec == Init /\ [][Next]_vars
 (*          <<"AC", i>> AsyncGenerator.aclose() coroutine of bagen i         *)
 (*          <<"YF", i>> the yield_from_() coroutine delegating to link i     *)
 (*          <<"Y">>     the yield_() coroutine, <<"YT">> the _yield_ trap    *)
-(*          <<"T">>     the trap generator, <<"AW">> the awaitable around    *)
-(*                      the leaf, <<"I">> the leaf iterator, <<"N">> None    *)
+(*          <<"T">>     the trap generator, <<"I">> the leaf iterator,       *)
+(*          <<"N">>     None                                                *)
 (* Frames:  <<"F", tag, i>> with tag \in {"link","step","aclose","yf",       *)
 (*          "yield","ytrap","trap"}                                         *)
 NoneI == <<"N">>
@@ -83,7 +83,7 @@ Driver(i, v) ==
 \* what the user's frame of link i is suspended on (cr_await / ag_await)
 Waiting(i) ==
   IF i = Len(chain)
-  THEN (CASE term = "trap" -> <<"T">> [] term = "iter" -> <<"AW">>
+  THEN (CASE term = "trap" -> <<"T">> [] term = "iter" -> <<"I">>
           [] term = "own" -> (IF chain[i].k = "bagen" THEN <<"Y">> ELSE NoneI))
   ELSE LET c == chain[i + 1] IN
        CASE c.via = "await" -> <<"L", i + 1>>
@@ -108,7 +108,7 @@ Row(x) ==
     [] x[1] = "NA" -> << <<"L", x[2]>> >>                                          \* unwrap_async_generator_asend_athrow
     [] x[1] = "X" -> << <<"CW", x[2]>> >>                                          \* unwrap_async_generator_backport_next_iter: aw._it
     [] x[1] = "CW" -> << <<"C", x[2]>> >>                                          \* unwrap_coroutine_wrapper
-    [] OTHER -> <<>>                                                               \* irreducible: AW (no rule), I
+    [] OTHER -> <<>>                                                               \* irreducible: the plain iterator
 \* ---- customize() rows: flags of library frames
 Hide(f) == f[2] \in {"step", "yield"}          \* customize(asend_coro.cr_code, hide=True); customize(yield_, hide=True, prune=True)
 Prune(f) == f[2] = "yield"
@@ -127,7 +127,7 @@ Flat == Walk(<<"L", 1>>, 8 * MaxLinks + 8)
 FramesOf(s) == SelectSeq(s, LAMBDA y : y[1] = "F")
 Entry(f) == [tag |-> f[2], link |-> f[3], hide |-> Hide(f)]
 GlueFrames == [j \in 1..Len(FramesOf(Flat)) |-> Entry(FramesOf(Flat)[j])]
-GlueLeaf == IF \E j \in 1..Len(Flat) : Flat[j][1] = "AW" THEN "awaitable" ELSE "none"
+GlueLeaf == IF \E j \in 1..Len(Flat) : Flat[j][1] = "I" THEN "iter" ELSE "none"
 
 ---------------------------------------------------------------------------
 (* Reference: the frames a throw into the root unwinds through, listed       *)
@@ -146,7 +146,7 @@ RefTail == CASE term = "trap" -> <<Lib("trap", 0, FALSE)>>
              [] OTHER -> <<>>
 Reference == RefFrom(1) \o RefTail
 
-RowsGiveThrowPath == term # "-" => (GlueFrames = Reference /\ GlueLeaf = (IF term = "iter" THEN "awaitable" ELSE "none"))
+RowsGiveThrowPath == term # "-" => (GlueFrames = Reference /\ GlueLeaf = (IF term = "iter" THEN "iter" ELSE "none"))
 \* the frames the user sees (not hidden) are the user's own plus the two library coroutines the glue leaves visible
 VisibleAreUsersOrNamed == term # "-" => \A j \in 1..Len(GlueFrames) :
                              ~GlueFrames[j].hide => GlueFrames[j].tag \in {"link", "trap", "aclose", "yf"}
